@@ -14,6 +14,7 @@ func init() {
 	register("C07_Middleware", C07_Middleware)
 	register("C07_IssueOnlyWhenAsked", C07_IssueOnlyWhenAsked)
 	register("C07_ResetRevokes", C07_ResetRevokes)
+	register("C07_MiddlewareUnderFaults", C07_MiddlewareUnderFaults)
 }
 
 // C07_Middleware: remember.Middleware from an arbitrary browser state and cookie value.
@@ -106,3 +107,33 @@ func C07_IssueOnlyWhenAsked() {
 // C07_ResetRevokes: a password reset kills the account's outstanding remember cookies (the
 // exploration of C06_RecoverRevokes).
 func C07_ResetRevokes() { C06_RecoverRevokes() }
+
+// C07_MiddlewareUnderFaults: a genuine cookie with any one storage call failing: whatever the
+// outcome, a session issued by the remember middleware is marked half-authenticated — for the
+// response (session jar) and for the handler behind the middleware.
+func C07_MiddlewareUnderFaults() {
+	verif.ReplayInInterpreter()
+	f := newFlow(fullOpts())
+	a := f.a[0]
+	f.w.Cookies.Set(authboss.CookieRemember, base64.URLEncoding.EncodeToString([]byte(a.rmRaw[0])))
+	f.w.Session.Del(authboss.SessionKey)
+	f.w.Session.Del(authboss.SessionHalfAuthKey)
+	f.preS, f.preC = f.w.Session.Snapshot(), f.w.Cookies.Snapshot()
+	plan := &faultPlan{max: 1}
+	f.injectFaults(plan)
+	next := http.HandlerFunc(func(wr http.ResponseWriter, r *http.Request) { wr.WriteHeader(200) })
+	_, panicked := f.serveHandler(remember.Middleware(f.w.AB)(next), "GET", "/")
+	if panicked {
+		return
+	}
+	if len(plan.fired) > 0 {
+		verif.Reach("fault-injected")
+	}
+	uid, has := f.w.Session.Lookup2(authboss.SessionKey)
+	verif.Witness(has, "session-issued")
+	if has {
+		verif.Assert(uid == a.pid, "the session belongs to the account the cookie was issued to")
+		verif.Assert(f.w.Session.Has(authboss.SessionHalfAuthKey), "a session issued from a remember cookie is always marked half-authenticated")
+		verif.Assert(!f.w.Store.HasSerial(a.rmSerial[0]), "a session issued from a remember cookie implies the cookie's token is consumed")
+	}
+}
